@@ -3,26 +3,27 @@
 (* under construction (column, direction, spelling), the select-list style   *)
 (* and the optional WHERE.  Every complete choice is one scenario with two   *)
 (* runs: the query without and with ORDER BY.                                *)
-EXTENDS WorldC05, Lang, Json, FiniteSets
+EXTENDS WorldC05, WorldRnd, Lang, Json, FiniteSets
 
-CONSTANTS MaxKeys, KeyCols
+CONSTANTS MaxKeys, KeyCols,
+          WorldSel      \* which trees: 0 = the fixed world W5, s > 0 = the pseudo-random tree WorldRnd!RndWorld(s)
 
-VARIABLES keys, sel, wh, phase
-vars == <<keys, sel, wh, phase>>
+VARIABLES keys, sel, wh, ws, phase
+vars == <<keys, sel, wh, ws, phase>>
 
-Init == keys = <<>> /\ sel = "path" /\ wh = FALSE /\ phase = "keys"
+Init == keys = <<>> /\ sel = "path" /\ wh = FALSE /\ ws \in WorldSel /\ phase = "keys"
 
 (* dir: "asc" (implicit), "ASC" (explicit `asc`), "desc" *)
 AddKey == /\ phase = "keys" /\ Len(keys) < MaxKeys
           /\ \E c \in KeyCols, d \in {"asc", "ASC", "desc"} :
                \* a column may be repeated (by name or position): redundant, but the directions must still line up
                /\ keys' = Append(keys, [col |-> c, dir |-> d])
-          /\ UNCHANGED <<sel, wh, phase>>
+          /\ UNCHANGED <<sel, wh, ws, phase>>
 Finish == /\ phase = "keys" /\ keys # <<>>
           /\ sel' \in {"path", "keys", "pos"}      \* keys not selected / selected / selected and referred to by position
           /\ wh' \in BOOLEAN
           /\ phase' = "done"
-          /\ UNCHANGED keys
+          /\ UNCHANGED <<keys, ws>>
 Next == AddKey \/ Finish
 Spec == Init /\ [][Next]_vars
 
@@ -38,9 +39,10 @@ WhereAtom == A1("size", "gt", IntL(2), "")
 WhereText == IF wh THEN " where " \o CondText(WhereAtom) ELSE ""
 NCols == IF sel = "path" THEN 1 ELSE 1 + Len(keys)
 
+WKey == IF ws = 0 THEN "W5" ELSE "R" \o ToString(ws)
 RECURSIVE KeysClass(_)
 KeysClass(i) == IF i > Len(keys) THEN "" ELSE (IF i > 1 THEN "," ELSE "") \o keys[i].col \o KeysClass(i + 1)
-Scenario == [prop |-> "C05", class |-> "keys=" \o KeysClass(1) \o "/" \o sel, world |-> "W5",
+Scenario == [prop |-> "C05", class |-> (IF ws = 0 THEN "" ELSE "rnd/") \o "keys=" \o KeysClass(1) \o "/" \o sel, world |-> WKey,
              keys |-> [i \in 1 .. Len(keys) |-> [col |-> keys[i].col, desc |-> (keys[i].dir = "desc")]],
              formula |-> IF wh THEN [f |-> "atom", a |-> WhereAtom] ELSE [f |-> "atom", a |-> A1("size", "gte", IntL(0), "")],
              env |-> [tz |-> "UTC", cwd |-> 0],
@@ -48,6 +50,6 @@ Scenario == [prop |-> "C05", class |-> "keys=" \o KeysClass(1) \o "/" \o sel, wo
                           argv |-> << "select " \o SelectText \o " from '.'" \o WhereText \o " into list" >>],
                          [tag |-> "ord", ncols |-> NCols,
                           argv |-> << "select " \o SelectText \o " from '.'" \o WhereText \o " order by " \o OrderText(1) \o " into list" >>] >>]
-EmitWorld == (keys = <<>>) => PrintT(<<"WORLD", ToJson([key |-> "W5", world |-> W5])>>)
+EmitWorld == (keys = <<>>) => PrintT(<<"WORLD", ToJson([key |-> WKey, world |-> IF ws = 0 THEN W5 ELSE RndWorld(ws)])>>)
 Emit == phase = "done" => PrintT(<<"REPLAY", ToJson(Scenario)>>)
 =============================================================================
